@@ -5,6 +5,7 @@ import (
 	"encoding/json"
 	"errors"
 	"fmt"
+	"math"
 	"sort"
 	"testing"
 	"testing/synctest"
@@ -43,7 +44,7 @@ type ShipSpec struct {
 
 type LoaderFault struct {
 	Call int    `json:"call"`
-	Kind string `json:"kind"` // notfound | error | swap (the store answers with ANOTHER delegation it holds)
+	Kind string `json:"kind"`           // notfound | error | swap (the store answers with ANOTHER delegation it holds)
 	With string `json:"with,omitempty"` // swap: label of the delegation handed out instead
 }
 
@@ -1054,7 +1055,9 @@ func (w *worldExec) decideProv(label string, c *CheckSpec, useHook bool, prov st
 		o.Probe("decision_on_" + prov)
 		// constructed tokens keep sub-second bounds the model (whole seconds, as sealed) does
 		// not know: no window verdict within a second of any bound
-		near := func(b *int64) bool { return b != nil && *b < 9_000_000_000 && *b > -9_000_000_000 && abs64(tNS-*b*1_000_000_000) <= 1_000_000_000 }
+		near := func(b *int64) bool {
+			return b != nil && *b < 9_000_000_000 && *b > -9_000_000_000 && abs64(tNS-*b*1_000_000_000) <= 1_000_000_000
+		}
 		nb := near(spec.Exp)
 		for _, d := range dl {
 			if d != nil && (near(d.Nbf) || near(d.Exp)) {
@@ -1227,7 +1230,14 @@ func (w *worldExec) probe(p *ProbeSpec) {
 		if b == nil {
 			return nil
 		}
+		// (bounds beyond +/-292 years from the simulation epoch do not fit in int64 nanoseconds:
+		// every representable instant lies before / after them)
 		v := *b*1_000_000_000 + ms*1_000_000
+		if *b > 9_000_000_000 {
+			v = math.MaxInt64
+		} else if *b < -9_000_000_000 {
+			v = math.MinInt64
+		}
 		return &v
 	}
 	rel := func(t int64, nb, ex *int64) (in, out bool) {
